@@ -90,6 +90,7 @@ class SetVal:
 
 F_REMATCH = z3.Function("re_matches", I, z3.StringSort(), SeqI, B)
 F_FINDALL = z3.Function("re_findall", I, SeqI, SeqSeqI)
+F_STRIPC = z3.Function("py_strip_chars", SeqI, SeqI, SeqI)
 F_REGROUP = z3.Function("re_group", I, z3.StringSort(), I, SeqI, SeqI)
 F_REGROUPNONE = z3.Function("re_group_is_none", I, z3.StringSort(), I, SeqI, B)
 
@@ -1185,6 +1186,20 @@ class SpecLib:
             return x
         M[("list", "pop")] = l_pop
 
+        def d_get(ex, a, kw):
+            box, key = a[0], a[1]
+            default = a[2] if len(a) > 2 else NONE
+            if box.val is None:
+                return default                      # the empty dict
+            if isinstance(box.val, ObjDict):
+                if not (isinstance(key, VSeq) and key.pyval is not None):
+                    raise Unsupported("symbolic key into a dict of objects")
+                return box.val.get(key.pyval, default)
+            present = self.box_contains(ex, box, key)
+            val = wrap(box.val.vty, z3.Select(box.val.vals, self._dkey(ex, box, key)))
+            return ex.ite(present, val, default)
+        M[("dict", "get")] = d_get
+
         def l_extend(ex, a, kw):
             self._list_extend(a[0], self.seqval(a[1]))
             return NONE
@@ -1227,7 +1242,13 @@ class SpecLib:
         def s_strip(ex, a, kw):
             x = a[0]
             if len(a) > 1:
-                raise Unsupported("strip(chars)")
+                chars = a[1]
+                if not (isinstance(chars, VSeq) and chars.pyval is not None):
+                    raise Unsupported("strip(chars) with symbolic chars")
+                if x.pyval is not None:
+                    return const_seq(x.kind, x.pyval.strip(chars.pyval))
+                self.use("%s.strip(chars): uninterpreted function py_strip_chars(text, chars)" % x.kind)
+                return VSeq(x.kind, "int", F_STRIPC(x.t, chars.t))
             if x.pyval is not None:
                 return const_seq(x.kind, x.pyval.strip())
             self.use("%s.strip(): a sub-view with uninterpreted bounds (py_lskip / py_rskip), lo <= lo' <= hi' <= hi" % x.kind)
@@ -1241,6 +1262,23 @@ class SpecLib:
             return VSeq(x.kind, "int", None, view=(buf, lo, hi))
         M[("bytes", "strip")] = s_strip
         M[("str", "strip")] = s_strip
+
+        def s_side_strip(which):
+            def f(ex, a, kw):
+                x = a[0]
+                chars = a[1] if len(a) > 1 else None
+                if chars is not None and not (isinstance(chars, VSeq) and chars.pyval is not None):
+                    raise Unsupported("%s(chars) with symbolic chars" % which)
+                if x.pyval is not None:
+                    return const_seq(x.kind, getattr(x.pyval, which)(*([chars.pyval] if chars is not None else [])))
+                self.use("%s.%s([chars]): uninterpreted function of (text, chars)" % (x.kind, which))
+                fn = z3.Function("py_%s" % which, SeqI, SeqI, SeqI)
+                ct = chars.t if chars is not None else const_seq(x.kind, "<whitespace>" if x.kind == "str" else b"<whitespace>").t
+                return VSeq(x.kind, "int", fn(x.t, ct))
+            return f
+        for which in ("lstrip", "rstrip"):
+            M[("bytes", which)] = s_side_strip(which)
+            M[("str", which)] = s_side_strip(which)
 
         def s_splitlines(ex, a, kw):
             x = a[0]
